@@ -277,7 +277,7 @@ func (c c08Cfg) apply(r *rig) {
 
 func TestVerifC08Headers(t *testing.T) {
 	L := ev.Begin("C08", "c08-headers", "exploration",
-		"header-related configuration (client-ip header none/custom/X-Real-Ip/X-Forwarded-For x TLS header none/set (canonical and non-canonical spellings) x LocalIP/HSTS variants x route host option none/name/dst) x connection plain/TLS x every subset of 8 fabio-managed headers forged by the client (2^8) plus repeated, lower-case, empty and blank-line variants x Host with/without port and as IPv6 literal x IPv4/IPv6 peer x a Connection header that names the managed headers as hop-by-hop, served by the real HTTPProxy to a recording upstream; plus redirect routes (to https and http targets) on plain and TLS connections; oracle = the six clauses of the statement. non-trivial = at least one forged header or a TLS connection")
+		"header-related configuration (client-ip header none/custom/X-Real-Ip/X-Forwarded-For x TLS header none/set (canonical and non-canonical spellings) x LocalIP/HSTS variants x route host option none/name/dst) x connection plain/TLS x every subset of 8 fabio-managed headers forged by the client (2^8) plus repeated, lower-case, empty and blank-line variants x Host with/without port and as IPv6 literal x IPv4/IPv6 peer x a Connection header that names the managed headers as hop-by-hop (on one line, behind a keep-alive line, one lower-case name per line), served by the real HTTPProxy to a recording upstream; plus redirect routes (to https and http targets) on plain and TLS connections; oracle = the six clauses of the statement. non-trivial = at least one forged header or a TLS connection")
 	cfgs := c08Configs()
 	sets := c08HeaderSets(true)
 	type job struct {
@@ -328,7 +328,18 @@ func TestVerifC08Headers(t *testing.T) {
 			if j.cfg.tlsHdr != "" {
 				names = append(names, j.cfg.tlsHdr)
 			}
-			hdrs = append(hdrs, [2]string{"Connection", strings.Join(names, ", ")})
+			switch i % 3 {
+			case 0:
+				hdrs = append(hdrs, [2]string{"Connection", strings.Join(names, ", ")})
+			case 1:
+				// the same spread over two field lines, an everyday option first
+				hdrs = append(hdrs, [2]string{"Connection", "keep-alive"}, [2]string{"Connection", strings.Join(names, ", ")})
+			default:
+				// lower case, one name per line
+				for _, n := range names {
+					hdrs = append(hdrs, [2]string{"connection", strings.ToLower(n)})
+				}
+			}
 		}
 		raw := rawRequest("GET", "/x", j.host, hdrs, nil, false)
 		L.Case()
